@@ -16,3 +16,4 @@ def run(ck):
     image.r_no_dangling_after_free(ck, P, 'C15-R8')
     alloc.r9_failure_is_atomic(ck, P)
     alloc.r10_cleanup_count_is_fresh(ck, P)
+    alloc.r11_broken_operand_not_dropped(ck, P)
